@@ -125,9 +125,18 @@ DecInv ==
            [] var = "before"    -> d.st = "err" /\ d.why = "before"
            [] var = "range"     -> d.st = "err" /\ d.why = "range"
 
-\* copying from a multiple of the period back continues a periodic output (used by PCopyOK)
-ASSUME \A pat \in {<<1>>, <<1, 2>>, <<1, 2, 1>>, <<1, 1, 2, 3>>} :
-         \A m \in 1..9, len \in 1..7, dd \in 1..9 : PeriodLemma(pat, m, len, dd)
+\* copying, inside the periodic body of a shaped output, from a multiple of the period back continues
+\* the body (the fast path of SCopyOK)
+ASSUME \A head \in {<<>>, <<5>>, <<5, 6, 1>>}, pat \in {<<1>>, <<1, 2>>, <<1, 2, 1>>, <<1, 1, 2, 3>>}, tail \in {<<>>, <<1, 7>>} :
+         \A nb \in {6, 9} : \A m \in 1..12, len \in 1..6, dd \in 1..12 :
+            ShapeLemma(Shape(head, pat, nb, tail), m, len, dd)
+\* the shaped validating decoder accepts the encoding of a shaped output and rejects a wrong tail
+ASSUME \A F \in {LZ10s, LZ11s} :
+         LET sh == Shape(<<97, 98>>, <<97>>, 7, <<98, 97>>)
+             x  == [i \in 1..SLen(sh) |-> SIn(sh, i)]
+             e  == Encode(F, Greedy(F, x))
+         IN /\ VRunShaped(F, e, 0, sh).st = "done"
+            /\ VRunShaped(F, e, 0, [sh EXCEPT !.tail = <<98, 98>>]).st = "err"
 
 \* large literal-only streams: the closed form (period 9 body) agrees with the decoder machine, at the
 \* real formats, bare and behind a 4-byte wrapper, for every n up to 20, every truncation, and a
